@@ -197,7 +197,9 @@ def _q_merge_index(env, how="inner", nparts=4):
 
 
 def _q_sort(env, by="c", ascending=True, npartitions=None, nparts=4):
-    return env.A(nparts).sort_values(by, ascending=ascending, npartitions=npartitions, shuffle_method="tasks")
+    # "a" is unique: the order of the result is fully specified
+    keys = [by, "a"] if by != "a" else ["a"]
+    return env.A(nparts).sort_values(keys, ascending=ascending, npartitions=npartitions, shuffle_method="tasks")
 
 
 def _q_sort_s(env, by="s", nparts=3):
@@ -334,7 +336,7 @@ def _q_flaky(env, tag="t1", nparts=4):
 
 def _q_flaky_sort(env, tag="t2", nparts=4):
     x = env.A(nparts)[["a", "c"]]
-    return x.map_partitions(flaky, tag, meta=x._meta).sort_values("c", shuffle_method="tasks")
+    return x.map_partitions(flaky, tag, meta=x._meta).sort_values(["c", "a"], shuffle_method="tasks")
 
 
 def _q_mapp(env, k=1, nparts=4):
@@ -397,7 +399,8 @@ def _q_min_max(env, nparts=4, col="c"):
 
 
 def _q_sort_head(env, by="c", n=4, nparts=4):
-    return env.A(nparts).sort_values(by, shuffle_method="tasks").head(n, compute=False)
+    keys = [by, "a"] if by != "a" else ["a"]
+    return env.A(nparts).sort_values(keys, shuffle_method="tasks").head(n, compute=False)
 
 
 POOL = {
@@ -416,10 +419,10 @@ POOL = {
     "merge_index": (_q_merge_index, {}, [("how", "left"), ("nparts", 2)], {"sort_rows": True}),
     "sort": (_q_sort, {}, [("by", "a"), ("ascending", False), ("npartitions", 3), ("nparts", 3)], {"tags": ["sort"]}),
     "sort_s": (_q_sort_s, {}, [("by", "b"), ("nparts", 4)], {"tags": ["sort"], "sort_rows": True}),
-    "set_index": (_q_set_index, {}, [("col", "a"), ("npartitions", 2), ("nparts", 3), ("drop", False)], {"tags": ["sort", "set_index"]}),
+    "set_index": (_q_set_index, {}, [("col", "a"), ("npartitions", 2), ("nparts", 3), ("drop", False)], {"tags": ["sort", "set_index"], "sort_rows": True}),
     "set_index_b": (_q_set_index_b, {}, [("col", "s"), ("nparts", 4)], {"tags": ["sort", "set_index"], "sort_rows": True}),
-    "set_index_then": (_q_set_index_then, {}, [("col", "b"), ("k", 2), ("nparts", 3)], {"tags": ["sort", "set_index"]}),
-    "set_index_nosort": (_q_set_index_nosort, {}, [("col", "a"), ("nparts", 3)], {}),
+    "set_index_then": (_q_set_index_then, {}, [("col", "b"), ("k", 2), ("nparts", 3)], {"tags": ["sort", "set_index"], "sort_rows": True}),
+    "set_index_nosort": (_q_set_index_nosort, {}, [("col", "a"), ("nparts", 3)], {"sort_rows": True}),
     "shuffle": (_q_shuffle, {}, [("on", "s"), ("npartitions", 2), ("nparts", 3)], {"sort_rows": True}),
     "shuffle_disk": (_q_shuffle, {"method": "disk"}, [("on", "a"), ("npartitions", 2)], {"sort_rows": True, "tags": ["disk"]}),
     "repart_n": (_q_repart_n, {}, [("npartitions", 3), ("nparts", 5)], {}),
@@ -631,7 +634,7 @@ def child_main():
     elif kind == "history":
         from harness.props import c15
 
-        out = c15.run_history(job["steps"], job["pq"])
+        out = c15.run_history(job["steps"], job["pq"], job.get("oracle"))
     else:
         out = {"error": "unknown job kind"}
     sys.stdout.write("\n@@RESULT@@" + json.dumps(out) + "\n")
